@@ -223,6 +223,16 @@ def run(chk):
           "the remembered (scope, slot) is returned as soon as it still holds the name: a variable of the same name introduced later into a nearer scope (eval(), use()) is ignored")
     r5.require(2, "obligations")
 
+    # ------------------------------------------------------------------ R4.8 a callee does not see its caller's locals
+    from . import c03
+    r8 = chk.rule("R4.8", "a script function's body, its parameters, captures and `this` live in a frame of their own (C03 R3.4's frame obligation re-decided): the scope scan of get_object starts in the callee's frame",
+                  "a name inside a function reaches the innermost variable in scope there, else the global, else the function - never a local of whoever called it, however the function was called (free call, method call, attribute call)")
+    okf, gf, whyf = c03.function_frame(prog)
+    r8.anchor(gf is not None, "eval::detail::eval_function")
+    chk.touched([gf])
+    r8.ob("eval_function opens a new frame unconditionally before it binds anything or evaluates the body", okf, gf.where, gf["q"], whyf)
+    r8.require(1, "obligation")
+
     # ------------------------------------------------------------------ R4.7 evaluated text gets fresh nodes (needed while the cache is layout-dependent)
     r7 = chk.rule("R4.7", "while the per-node cache is not revalidated against the current scope layout (R4.4 / R4.5 fail), source text handed to eval()/eval_file()/use() is evaluated on nodes "
                           "parsed in that very call: the engine stores no syntax tree of evaluated text for reuse",
